@@ -46,7 +46,7 @@ EXPRS = ["1", "1+2", "-5", "[1, 2]", "'x'", "\"o'q\"", "1/0", "None", "os.sep", 
          "(yield)", "5;6", "#c", "2 #c", "\n3", " 4", "raise", "sys.exit(3)", "[][0]", "...", "1 .real", "abc",
          "zzzq", "{**1}", "1if 1else 2", "0777", "b'x'", "2**10", "'a' 'b'", "(w_:=1)", "not 1", "str", "lambda: 0",
          "__import__('os').sep", "os.path.join('a', 'b')", "undefined_name_1 + 1", "print(end='')"]
-SHELL = ["o'q", "$HOME", "a;b", "*.py", "~/x", "a|b", "`ls`", "--x", "-5", "=", "foo=1", "/usr/bin", "a\\b", "\u00e9",
+SHELL = ["o'q", "$HOME", "a;b", "*.py", "~/x", "a|b", "`ls`", "--x", "-5", "=", "fq_=1", "/usr/bin", "a\\b", "\u00e9",
          "*a", "a&&b", ">out", "-", "--", "-x=1", "--foo", "--foo=1", "?", "??", "a=b=c", "$(id)", "!ls", "%time", "'",
          "\"", "rm -rf /tmp/x", "a\nb", "--=", "---"]
 VALS = PLAIN + EXPRS + SHELL
@@ -922,7 +922,7 @@ def gen_cli_cases(ctx, n):
         r = cm.rng(ctx.seed, "c15cli", i)
         flags = r.choice([["--safe"], ["--args=string"], ["--args", "string"], ["--safe", "--apply"], ["--args=auto"]])
         func = r.choice(["show", "show", "two", "print"])
-        vals = [v for v in PLAIN + EXPRS + ["(1+2)", "[1,2]", "(3)", "(1+2)", "o'q", "$HOME", "a;b", "*.py", "a|b", "/usr/bin", "a\\b", "\u00e9", "foo=1"]
+        vals = [v for v in PLAIN + EXPRS + ["(1+2)", "[1,2]", "(3)", "(1+2)", "o'q", "$HOME", "a;b", "*.py", "a|b", "/usr/bin", "a\\b", "\u00e9", "fq_=1"]
                 if v.strip() and not v.startswith("-") and v not in ("?", "??", "sys.exit(3)", "print(end='')")]
         argv = [r.choice(vals) for _ in range(r.randint(1, 3))]
         if r.random() < .5:
